@@ -8,6 +8,7 @@ import (
 	"net"
 	"os"
 	"path/filepath"
+	"strings"
 	"sync/atomic"
 	"time"
 
@@ -25,12 +26,12 @@ import (
 )
 
 type Config struct {
-	Orca     string `json:"orca"`  // l1only | l1l2
-	Batch    bool   `json:"batch"` // additional batch port (l1l2 only)
-	Lock     string `json:"lock"`  // none | single | multi
-	LockConc uint8  `json:"lockconc"`
-	L1       string `json:"l1"` // std | chunked | batched | inmem
-	L2       string `json:"l2"` // std | batched
+	Orca     string       `json:"orca"`  // l1only | l1l2
+	Batch    bool         `json:"batch"` // additional batch port (l1l2 only)
+	Lock     string       `json:"lock"`  // none | single | multi
+	LockConc uint8        `json:"lockconc"`
+	L1       string       `json:"l1"` // std | chunked | batched | inmem
+	L2       string       `json:"l2"` // std | batched
 	BatchOpt batched.Opts `json:"-"`
 }
 
@@ -176,7 +177,7 @@ func Build(cfg Config, dir string, wrap Wrap) (*Stack, error) {
 func waitSock(path string) error {
 	deadline := time.Now().Add(5 * time.Second)
 	for {
-		if _, err := os.Stat(path); err == nil {
+		if _, err := os.Stat(path); err == nil && listening(path) {
 			return nil
 		}
 		if time.Now().After(deadline) {
@@ -184,6 +185,23 @@ func waitSock(path string) error {
 		}
 		time.Sleep(2 * time.Millisecond)
 	}
+}
+
+// listening reports whether the unix socket bound to path has reached listen(): between bind()
+// and listen() the file exists but a connect is refused. Read from /proc/net/unix so that no
+// probe connection disturbs the server (flag 0x10000 is __SO_ACCEPTCON).
+func listening(path string) bool {
+	b, err := os.ReadFile("/proc/net/unix")
+	if err != nil {
+		return true
+	}
+	for _, ln := range strings.Split(string(b), "\n") {
+		f := strings.Fields(ln)
+		if len(f) >= 8 && f[7] == path {
+			return f[3] == "00010000"
+		}
+	}
+	return false
 }
 
 // DialRaw opens a plain connection to a port.
